@@ -2728,7 +2728,7 @@ def get_byte_map(string_map):
     """
     # sort by length of key first, and then sort alphabetically
     sorted_string_map = {k: v for k, v in sorted(string_map.items(), key=lambda item: item[0])}
-    sorted_string_key = [(len(k), np.frombuffer(k.encode(), dtype=np.uint8), v) for k, v in sorted_string_map.items()]
+    sorted_string_key = [(len(k.encode()), np.frombuffer(k.encode(), dtype=np.uint8), v) for k, v in sorted_string_map.items()]
     sorted_string_values = list(sorted_string_map.values())
     
     # assign byte_map_key_lengths, byte_map_value
